@@ -88,6 +88,12 @@ func runC19(c *core.Ctx, o Options) {
 		if !c.Anchor(f.name, fn != nil, f.name, posOf(fn)) {
 			continue
 		}
+		// the callee inlined into this wrapper: there is no hand-over of an error left to check here (the rule about the callee's
+		// own result — Router.Send's error is returned — is applied to the wrapper below)
+		if cal := c.Func(f.rel, f.callee); cal == fn {
+			c.Ob("H1", f.name, f.what, fn.Pos()).Ok("%s is inlined into %s", f.callee, f.name)
+			continue
+		}
 		paths, _ := an.EnumPaths(fn, 16)
 		ok := len(paths) > 0
 		for _, p := range paths {
